@@ -402,6 +402,9 @@ pub struct Environment<E: Effect> {
     // Effect backend and resource management
     effect_backend: Option<Box<dyn EffectBackend<E = E>>>,
     resource_ownership: HashMap<ResourceId, ProcessId>,
+    // Processes reported as terminated: a resource handed to one of them has no one left to
+    // use it, and is closed on arrival.
+    terminated: HashSet<ProcessId>,
 }
 
 impl<E: Effect> Environment<E> {
@@ -419,6 +422,7 @@ impl<E: Effect> Environment<E> {
             next_process_id: 0,
             effect_backend: None,
             resource_ownership: HashMap::new(),
+            terminated: HashSet::new(),
         }
     }
 
@@ -1022,6 +1026,10 @@ impl<E: Effect> Environment<E> {
             Event::AwaitAction { awaiter, targets } => {
                 self.handle_await_processes(awaiter, targets)
             }
+            Event::ProcessTerminated { process_id } => {
+                self.handle_process_terminated(process_id);
+                Ok(())
+            }
             Event::ProcessResults { awaiter, results } => {
                 self.handle_process_results(awaiter, results)
             }
@@ -1103,6 +1111,12 @@ impl<E: Effect> Environment<E> {
         }
 
         Ok(())
+    }
+
+    /// A process terminated, awaited or not: close everything it still owns.
+    fn handle_process_terminated(&mut self, process_id: ProcessId) {
+        self.terminated.insert(process_id);
+        self.cleanup_process_resources(process_id);
     }
 
     fn handle_process_results(
@@ -1272,6 +1286,10 @@ impl<E: Effect> Environment<E> {
     ) -> Result<(), EnvironmentError> {
         // Transfer ownership of any resources in the message to the target process
         self.transfer_resource_ownership(&message, target);
+        if self.terminated.contains(&target) {
+            // Nobody will ever receive this message: close what it carried.
+            self.cleanup_process_resources(target);
+        }
 
         let worker_id = self
             .process_router
